@@ -6,7 +6,8 @@
    the model. *)
 From Coq Require Import List ZArith Bool.
 From SVC Require Import Base.AMap Base.Res Model.Types Model.Handlers Model.EndBlock Model.Step
-  Proofs.Inv Proofs.CtxOps Proofs.TraceBase Proofs.C12Proofs Proofs.TraceBatch Proofs.ThrProofs.
+  Proofs.Inv Proofs.CtxOps Proofs.TraceBase Proofs.C12Proofs Proofs.TraceBatch Proofs.ThrProofs
+  Proofs.GapC12 Proofs.GapC12b.
 Import ListNotations.
 Open Scope Z_scope.
 
@@ -235,3 +236,146 @@ Theorem C12_threshold_new_one : forall cfg s c c' rc rc',
   /\ (c_bthr rc' <> c_bthr rc -> c' = c /\ c_counter rc' = c_counter rc + 1 /\ c_bthr rc' = c_thr rc).
 Proof. exact ThrProofs.C12_threshold_new_one. Qed.
 Print Assumptions C12_threshold_new_one.
+
+(* ------------------------------------------------------------------------------------------
+   History level (Proofs/GapC12.v).
+     issue_in c n e / respond_in c n e   e is an EvIssue / EvRespond of a request of batch n of c
+     count f l                           number of elements of l satisfying f (TraceBase.count)
+   ------------------------------------------------------------------------------------------ *)
+
+(* ---- counts tied to the trace ----
+   "the recorded request count equals the number of requests issued and the recorded response
+   count equals the number of responses accepted": for every existing context -- while the batch
+   is in flight, after its records have been cleaned, and when the context was paused for funds
+   (counter not advanced) -- the counts of the record are the numbers of issue / response events
+   of the CURRENT batch in the log of the whole history; no event of a later batch exists; the
+   batch start event announces the request count *)
+Theorem C12_counts_trace : forall cfg s c rc,
+  wf_cfg cfg -> Reach cfg s -> get c (ctxs s) = Some rc ->
+  c_breq rc = count (issue_in c (c_counter rc)) (log s)
+  /\ c_bresp rc = count (respond_in c (c_counter rc)) (log s)
+  /\ (forall n, c_counter rc < n ->
+        count (issue_in c n) (log s) = 0 /\ count (respond_in c n) (log s) = 0)
+  /\ (1 <= c_counter rc -> exists h, In (EvBatchStart c (c_counter rc) h (c_breq rc)) (log s)).
+Proof. exact GapC12.counts_trace. Qed.
+Print Assumptions C12_counts_trace.
+
+(* a context id the host never handed out has no issue and no response event *)
+Theorem C12_fresh_no_events : forall cfg s c, wf_cfg cfg -> Reach cfg s -> ctx_fresh s c ->
+  forall n, count (issue_in c n) (log s) = 0 /\ count (respond_in c n) (log s) = 0.
+Proof. exact GapC12.fresh_no_events. Qed.
+Print Assumptions C12_fresh_no_events.
+
+(* messages other than a response leave the batch bookkeeping of every context alone
+   (corollary of C09_transition_msg, restated here so that the counts facet is self-contained) *)
+Theorem C12_msg_keeps_bookkeeping : forall cfg s o s' c rc rc',
+  wf_cfg cfg -> Inv cfg s -> wf_op s o -> (forall dt, o <> OEndBlock dt) ->
+  handle cfg s o = Ok s' ->
+  (forall r who code out ov ok, o <> ORespond r who code out ov ok) ->
+  get c (ctxs s) = Some rc -> get c (ctxs s') = Some rc' ->
+  c_counter rc' = c_counter rc /\ c_breq rc' = c_breq rc /\ c_bresp rc' = c_bresp rc
+  /\ c_bthr rc' = c_bthr rc /\ c_bdone rc' = c_bdone rc.
+Proof. exact GapC12.msg_keeps_bookkeeping. Qed.
+Print Assumptions C12_msg_keeps_bookkeeping.
+
+(* ---- the arguments of the response callback, for every callback event of a reachable log ----
+   EvRespond events do not carry the output, so the outputs cannot be read off the log alone.  The
+   theorem produces the moment of the callback instead: a state s0 satisfying the invariant, whose
+   log is a suffix of the final log, in which the completing operation started -- either the last
+   response r of the batch (accepted in s0: stored, active, sent by its provider; responses + 1 =
+   requests; its EvRespond follows in the log) or the expiry handler of c (entry due in s0) -- with
+   the record rc of the context then:
+     - batch n is the current, unfinished batch of a module context, expiry pending, n >= 1;
+     - it was started with c_breq rc requests (the EvBatchStart event), all of them issued;
+     - the responses accepted so far for it are exactly the ones stored in s0, c_bresp rc of them,
+       one per EvRespond event of the batch;
+     - outs = the non-empty outputs (batch_outputs: request-id order) of the stored responses of
+       the batch, the one just arriving included;
+     - err <-> fewer outputs than the per-batch threshold c_bthr rc (the copy of the context's
+       threshold taken when the batch started: C12_threshold_new_one, C12_batch_threshold_msg) *)
+Theorem C12_callback_args : forall cfg s c n outs err,
+  wf_cfg cfg -> Reach cfg s -> In (EvCbResp c n outs err) (log s) ->
+  exists s0 rc d,
+    Inv cfg s0 /\ log s = d ++ log s0
+    /\ get c (ctxs s0) = Some rc /\ c_counter rc = n /\ 1 <= n /\ c_mod rc <> 0 /\ c_bdone rc = false
+    /\ has c (expq_h s0) = true
+    /\ (exists h, In (EvBatchStart c n h (c_breq rc)) (log s0))
+    /\ c_breq rc = count (issue_in c n) (log s0)
+    /\ len (filter (in_batch c n) (keys (resps s0))) = c_bresp rc
+    /\ c_bresp rc = count (respond_in c n) (log s0)
+    /\ err = (len outs <? c_bthr rc)
+    /\ ((exists r q who code out,
+           get r (reqs s0) = Some q /\ r_active q = true /\ who = r_prov q
+           /\ in_batch c n r = true /\ get r (resps s0) = None
+           /\ c_bresp rc + 1 = c_breq rc /\ In (EvRespond r) d
+           /\ outs = batch_outputs (set_resps s0 (set r (mkResp who (c_cons rc) code out) (resps s0))) c n)
+        \/ (In (height s0, c) (expq s0) /\ outs = batch_outputs s0 c n)).
+Proof. exact GapC12.callback_args. Qed.
+Print Assumptions C12_callback_args.
+
+(* batch_outputs unfolded: an output is handed over iff it is the non-empty output of a stored
+   response of the batch; at most one output per stored response *)
+Theorem C12_batch_outputs_spec : forall s c n o, wf (resps s) ->
+  In o (batch_outputs s c n) <->
+  o <> 0 /\ exists r x, get r (resps s) = Some x /\ in_batch c n r = true /\ rs_out x = o.
+Proof. exact GapC12.batch_outputs_In. Qed.
+Print Assumptions C12_batch_outputs_spec.
+
+Theorem C12_batch_outputs_length : forall s c n,
+  len (batch_outputs s c n) <= len (filter (in_batch c n) (keys (resps s))).
+Proof. exact GapC12.len_batch_outputs_le. Qed.
+Print Assumptions C12_batch_outputs_length.
+
+(* what follows for the log alone: only non-empty outputs, at most one per response accepted for
+   the batch, at most as many as the batch start announced, which were all issued *)
+Theorem C12_callback_args_log : forall cfg s c n outs err,
+  wf_cfg cfg -> Reach cfg s -> In (EvCbResp c n outs err) (log s) ->
+  (forall o, In o outs -> o <> 0)
+  /\ len outs <= count (respond_in c n) (log s)
+  /\ exists h k, In (EvBatchStart c n h k) (log s)
+       /\ len outs <= k /\ k <= count (issue_in c n) (log s).
+Proof. exact GapC12.callback_args_log. Qed.
+Print Assumptions C12_callback_args_log.
+
+(* ---- the cause of the state callback ----
+   funds_short s rc :=  let el := filter_providers s rc (c_provs rc) in
+       (0 <? len el) && (c_thr rc <=? len el) && negb (c_super rc) && (bal s (User (c_cons rc)) <? sum_prices el)
+   i.e. enough eligible providers (>= 1 and >= the threshold), not super mode, and the consumer's
+   balance is below the sum of their prices; is_cbstate_any e: e is an EvCbState event.  The new-batch handler, run for a RUNNING
+   context below its total (d5 rc = false), pauses the context -- and emits the state callback iff
+   it is a module context -- exactly in that case, moving no money; otherwise it starts (or skips)
+   batch counter + 1 and emits no state callback *)
+Theorem C12_state_callback_cause : forall cfg s c rc,
+  get c (ctxs s) = Some rc -> c_state rc = Running -> d5 rc = false ->
+  if funds_short s rc
+  then get c (ctxs (new_one cfg s c)) = Some (paused_ctx rc)
+       /\ log (new_one cfg s c) = (if c_mod rc =? 0 then [] else [EvCbState c]) ++ log s
+       /\ bank (new_one cfg s c) = bank s
+  else exists k d, get c (ctxs (new_one cfg s c)) = Some (bump rc k)
+       /\ log (new_one cfg s c) = d ++ log s /\ (forall e, In e d -> is_cbstate_any e = false).
+Proof. exact GapC12.state_callback_cause. Qed.
+Print Assumptions C12_state_callback_cause.
+
+Theorem C12_state_callback_iff_funds_short : forall cfg s c rc,
+  get c (ctxs s) = Some rc -> c_state rc = Running -> d5 rc = false ->
+  forall c', ncbstate c' (new_one cfg s c)
+             = ncbstate c' s + (if eqb c' c && funds_short s rc && negb (c_mod rc =? 0) then 1 else 0).
+Proof. exact GapC12.state_callback_iff_funds_short. Qed.
+Print Assumptions C12_state_callback_iff_funds_short.
+
+(* ---- exactly once, for FINISHED contexts ----
+   C12_callback_once compares the batch events with the record of an existing context.  A context
+   that was removed (one-shot batch over, total reached, killed) has no record left: it stays
+   removed (context ids are never reused), every batch it ever started was completed, exactly
+   once, and its response callbacks are one per completion -- or none at all: the log does not say
+   whether the context belonged to a module (EvCtxCreated carries no module name) *)
+Theorem C12_finished_context_complete : forall cfg s c,
+  wf_cfg cfg -> Reach cfg s -> In (EvCtxRemoved c) (log s) ->
+  get c (ctxs s) = None
+  /\ In (EvCtxCreated c) (log s)
+  /\ (forall n, count (is_start c n) (log s) = count (is_done c n) (log s)
+                /\ count (is_done c n) (log s) <= 1)
+  /\ ((forall n, count (is_cbresp c n) (log s) = count (is_done c n) (log s))
+      \/ (forall n, count (is_cbresp c n) (log s) = 0)).
+Proof. exact GapC12b.finished_context_complete. Qed.
+Print Assumptions C12_finished_context_complete.
